@@ -13,7 +13,7 @@ from contextlib import asynccontextmanager
 from datetime import datetime, timezone
 from typing import Any, AsyncGenerator, Generic, Literal
 
-from pydantic import BaseModel
+from pydantic import BaseModel, ValidationError
 from typing_extensions import TypeVar
 from workflows.context.serializers import BaseSerializer, JsonSerializer
 from workflows.context.state_store import (
@@ -205,6 +205,13 @@ class SqliteStateStore(Generic[MODEL_T]):
             row = cursor.fetchone()
 
             if row is None:
+                # No stored state yet: merge onto the default state, the way the
+                # in-memory store merges onto its initial state.
+                try:
+                    state = merge_state(self._create_default_state(), state)  # type: ignore[assignment]
+                except ValidationError:
+                    # state type without defaults: nothing to merge onto
+                    pass
                 self._save_state(state, conn)
                 conn.commit()
                 return
